@@ -36,9 +36,12 @@ MANIFEST = dict(
                 "expire_connections, refresh of an existing UDP association before the sweep), for every history the ids stay "
                 "distinct, the client holds one association per id and every association it holds owns a registered id, so "
                 "the allocator skips it (C06_distinct_timed), and a refreshed association survives the sweep of the same "
-                "handler however long it was idle (C06_refresh_survives_sweep). Tied to the code by "
+                "handler however long it was idle (C06_refresh_survives_sweep); with the code's own MAX_CHANNEL every allocated id is "
+                "non-zero, fits the 16-bit header field and is decoded by the peer as exactly that id "
+                "(C06_allocated_id_fits_the_wire, over C07's round trip). Tied to the code by "
                 "a differential run through the real next_channel / onaccept_tcp / ondns / onaccept_udp / dns_done / "
-                "expire_connections / got_packet with MAX_CHANNEL small and large, plus an oracle on the real tables."),
+                "expire_connections / got_packet with MAX_CHANNEL small and large, plus an oracle on the real tables and on what a "
+                "real peer Mux decodes for every flow opened (histories at the code's own MAX_CHANNEL included)."),
     level_note=("Trusted: Lean kernel (axioms propext/Classical.choice/Quot.sound at most), the harness and its fake "
                 "listener/method/socket objects. Server-side table (new_channel/udp_open asserts) is exercised by the "
                 "tunnel simulator of C01/C02, not proved here; re-use across a full cursor cycle (F19) is outside."),
